@@ -15,7 +15,7 @@ RULE = (
     "or one rejected add. distinct = hash(history length, indices, values); non-trivial = the store is non-empty."
 )
 ASSUMPTIONS = ["statistics are compared after update(); mean/var recomputed with numpy float64 from the shadow rows (rtol 1e-9)"]
-N = {"quick": 320, "thorough": 12000}
+N = {"quick": 320, "thorough": 60000}
 REQUIRE = {"quick": {"predict_events": 3000, "reject_events": 200, "var_two_plus": 500, "var_below_two": 500,
                      "untracked_events": 300, "set_adds": 200, "repeat_adds": 200, "clears": 100, "long_histories": 10}}
 TIMEOUT = {"quick": 600, "thorough": 3600}
